@@ -4,7 +4,16 @@ lines of solve_Ty / solve_Py / solve_Tx / solve_Px that prepare the composition 
 Writes coq/C08/Gen_kernels.v.  coq/C08/Proofs.v proves `g_<name> = <hand-written model function>` by
 reflexivity, so an edit of these functions in /repo either regenerates a convertible term or breaks the build.
 Fails closed: any statement / expression outside the small subset below raises TranslatorError naming
-file, line and node."""
+file, line and node.
+
+Behaviour-preserving tidy-ups regenerate a convertible term (the agreement lemma is conversion: delta/zeta/beta):
+  * local temporaries and renamed locals are let-bindings, which conversion sees through;
+  * renamed parameters are matched by position;
+  * a call `self._helper(args)` to a method of the same class in the same file is inlined when the helper's body is itself
+    in the subset (assignments / masks, one final `return <expr>`, no guard, no buffer write, no recursion): parameters are
+    substituted by the translated arguments, the helper's locals get a suffix so that they cannot capture;
+  * the composition arguments of solve_* are taken by position from the `args = (...)` tuple handed to the root finder, so the
+    locals holding them may be renamed or computed through temporaries."""
 import ast, hashlib, os, sys
 
 sys.path.insert(0, os.path.join(os.path.dirname(os.path.abspath(__file__)), '..', 'lib'))
@@ -13,9 +22,43 @@ from vf import TranslatorError, REPO, COQ, q, write_if_changed
 VEC, SCA = 'vec', 'sca'
 
 class Tr:
-    def __init__(self, path, env):
+    def __init__(self, path, env, cls_node=None, stack=(), suffix=''):
         self.path = path
         self.env = dict(env)          # name -> (type, coq text)
+        self.cls_node = cls_node      # ast.ClassDef whose methods may be inlined
+        self.stack = tuple(stack)     # methods being inlined (no recursion)
+        self.suffix = suffix          # appended to let-bound locals of an inlined method
+
+    def inline(self, e, name):
+        """self.<name>(args) with <name> a method of the same class whose body is in the subset -> its body, inlined"""
+        fn = None
+        for m in (self.cls_node.body if self.cls_node is not None else ()):
+            if isinstance(m, ast.FunctionDef) and m.name == name:
+                fn = m
+        if fn is None:
+            self.err(e, 'call')
+        if name in self.stack:
+            self.err(e, 'recursive helper')
+        a = fn.args
+        if e.keywords or a.vararg or a.kwarg or a.kwonlyargs or a.posonlyargs or any(isinstance(x, ast.Starred) for x in e.args):
+            self.err(e, 'helper call with keywords / star arguments')
+        ps = [x.arg for x in a.args]
+        if not ps or ps[0] != 'self' or len(ps) - 1 != len(e.args):
+            self.err(e, 'helper call arity')
+        if fn.decorator_list:
+            self.err(e, 'decorated helper')
+        sub = Tr(self.path, {}, self.cls_node, self.stack + (name,), f'{self.suffix}_{name.strip("_")}')
+        for p_, arg in zip(ps[1:], e.args):
+            sub.env[p_] = self.expr(arg)
+        box = []
+        def fin(tr, s):
+            if s.value is None:
+                tr.err(s, 'helper returns nothing')
+            t, txt = tr.expr(s.value)
+            box.append(t)
+            return txt
+        text = sub.body(fn.body, fin)
+        return box[0], f'({text})'
 
     def err(self, node, what):
         raise TranslatorError(f'{self.path}:{getattr(node, "lineno", "?")}: outside the translated subset: {what} '
@@ -74,6 +117,8 @@ class Tr:
                     for kw in e.keywords:
                         if kw.arg != 'dtype': self.err(e, 'np.array keyword')
                     return VEC, f'(psats_at k {self.arg(lc.elt.args[0], SCA)})'
+            if isinstance(f, ast.Attribute) and isinstance(f.value, ast.Name) and f.value.id == 'self':
+                return self.inline(e, f.attr)
             self.err(e, 'call')
         self.err(e, 'expression')
 
@@ -93,6 +138,7 @@ class Tr:
         if isinstance(s, ast.Expr) and isinstance(s.value, ast.Constant) and isinstance(s.value.value, str):
             return self.body(rest, final)
         if isinstance(s, ast.If) and not s.orelse and len(s.body) == 1 and isinstance(s.body[0], ast.Raise):
+            if self.stack: self.err(s, 'guard inside an inlined helper')
             c = s.test
             if (isinstance(c, ast.Compare) and len(c.ops) == 1 and isinstance(c.ops[0], ast.LtE)
                     and isinstance(c.comparators[0], ast.Constant) and c.comparators[0].value == 0):
@@ -102,17 +148,20 @@ class Tr:
             self.err(s, 'guard')
         if isinstance(s, ast.Assign) and len(s.targets) == 1:
             tg = s.targets[0]
+            sfx = self.suffix
             if isinstance(tg, ast.Name):
                 t, a = self.expr(s.value)
                 v = tg.id
-                self.env[v] = (t, v)
-                return f'let {v} := {a} in\n  {self.body(rest, final)}'
+                self.env[v] = (t, v + sfx)
+                return f'let {v}{sfx} := {a} in\n  {self.body(rest, final)}'
             # buf[:] = expr
             if (isinstance(tg, ast.Subscript) and isinstance(tg.value, ast.Name) and isinstance(tg.slice, ast.Slice)
                     and tg.slice.lower is None and tg.slice.upper is None and tg.slice.step is None):
+                if self.stack: self.err(s, 'buffer write inside an inlined helper')
                 t, a = self.expr(s.value)
                 if t != VEC: self.err(s, 'buffer write of a scalar')
                 v = tg.value.id
+                if v not in self.env: self.err(s, 'write to an unknown buffer')
                 self.env[v] = (VEC, v + "'")
                 return f"let {v}' := {a} in\n  {self.body(rest, final)}"
             # Psats[Psats < 1e-16] = 1e-16
@@ -124,8 +173,8 @@ class Tr:
                 if self.env.get(v, (None,))[0] != VEC: self.err(s, 'mask on a non-vector')
                 m = q(float(s.value.value))
                 old = self.env[v][1]
-                self.env[v] = (VEC, v + '_c')
-                return f'let {v}_c := clamp_lo {m} {old} in\n  {self.body(rest, final)}'
+                self.env[v] = (VEC, v + sfx + '_c')
+                return f'let {v}{sfx}_c := clamp_lo {m} {old} in\n  {self.body(rest, final)}'
             self.err(s, 'assignment target')
         if isinstance(s, ast.Return):
             if rest: self.err(rest[0], 'statement after return')
@@ -159,16 +208,28 @@ def ret_pair(tr, s):
         return f'({tr.arg(e.elts[0], SCA)}, {tr.arg(e.elts[1], VEC)})'
     tr.err(s, 'return of a pair expected')
 
+def find_class(tree, cls, path):
+    for n in tree.body:
+        if isinstance(n, ast.ClassDef) and n.name == cls:
+            return n
+    raise TranslatorError(f'{path}: class {cls} not found')
+
 def kernel(tree, path, cls, name, gname, sig, coq_params, final=ret_resid, pre=''):
     fn = find_method(tree, cls, name, path)
-    if params(fn) != ['self'] + [p for p, _ in sig]:
-        raise TranslatorError(f'{path}:{fn.lineno}: signature of {cls}.{name} changed: {params(fn)}')
-    tr = Tr(path, {p: (t, p) for p, t in sig})
+    ps = params(fn)
+    a = fn.args
+    if not ps or ps[0] != 'self' or len(ps) - 1 != len(sig) or a.vararg or a.kwarg or a.kwonlyargs or a.defaults:
+        raise TranslatorError(f'{path}:{fn.lineno}: signature of {cls}.{name} changed: {ps}')
+    # parameters are matched by position (a renamed parameter is the same parameter); the Gallina binder keeps its name
+    tr = Tr(path, {src: (t, coq) for src, (coq, t) in zip(ps[1:], sig)}, find_class(tree, cls, path))
     body = tr.body(fn.body, final)
     return f'Definition {gname} {coq_params} :=\n  {pre}{body}.\n'
 
-def prep(tree, path, cls, name, branch_test, names, gname, coq_params, env, result):
-    """the assignments to `names` in the branch `elif <branch_test>:` of the method, in source order"""
+def prep(tree, path, cls, name, branch_test, arity, positions, gname, coq_params, env):
+    """The composition arguments handed to the root finder in the branch `elif <branch_test>:` of the method: the elements
+    `positions` of the one tuple literal `args = (...)` of that branch, translated in the environment built from the
+    simple assignments that precede it (temporaries; assignments outside the subset are skipped and fail closed only if a
+    composition argument depends on them)."""
     fn = find_method(tree, cls, name, path)
     found = None
     for n in ast.walk(fn):
@@ -177,22 +238,38 @@ def prep(tree, path, cls, name, branch_test, names, gname, coq_params, env, resu
             break
     if found is None:
         raise TranslatorError(f'{path}:{fn.lineno}: branch `{branch_test}` of {cls}.{name} not found')
-    tr = Tr(path, env)
+    tr = Tr(path, env, find_class(tree, cls, path))
     lets = []
-    seen = set()
+    tuples = []
     for s in found.body:
-        if isinstance(s, ast.Assign) and len(s.targets) == 1 and isinstance(s.targets[0], ast.Name) and s.targets[0].id in names:
+        if isinstance(s, ast.Assign) and len(s.targets) == 1 and isinstance(s.targets[0], ast.Name):
             v = s.targets[0].id
-            if v in seen:
-                tr.err(s, f'{v} assigned twice')
-            seen.add(v)
-            t, a = tr.expr(s.value)
+            if isinstance(s.value, ast.Tuple):
+                tuples.append(s)
+                break                      # what follows the argument tuple is the solver call
+            try:
+                t, a = tr.expr(s.value)
+            except TranslatorError:
+                tr.env.pop(v, None)        # not in the subset: the name becomes unknown
+                continue
             tr.env[v] = (t, v)
             lets.append(f'let {v} := {a} in')
-        elif isinstance(s, (ast.If, ast.Try)) and any(isinstance(x, ast.Name) and x.id in names and isinstance(x.ctx, ast.Store) for x in ast.walk(s)):
-            tr.err(s, 'composition argument assigned inside a nested statement')
-    if seen != set(names):
-        raise TranslatorError(f'{path}:{found.lineno}: {cls}.{name}: assignments to {sorted(set(names) - seen)} not found')
+        elif isinstance(s, (ast.If, ast.Try, ast.For, ast.While, ast.With)):
+            stored = {x.id for x in ast.walk(s) if isinstance(x, ast.Name) and isinstance(x.ctx, ast.Store)}
+            for v in stored:
+                if v in tr.env and v not in env:
+                    tr.env.pop(v)          # conditionally re-assigned local: unknown from here on
+        elif isinstance(s, ast.Assign):
+            for tg in s.targets:
+                for x in ast.walk(tg):
+                    if isinstance(x, ast.Name) and x.id in tr.env and x.id not in env:
+                        tr.env.pop(x.id)
+    if len(tuples) != 1 or len(tuples[0].value.elts) != arity:
+        raise TranslatorError(f'{path}:{found.lineno}: {cls}.{name}: the argument tuple of the root finder '
+                              f'(a {arity}-tuple literal assigned to a name) was not found')
+    elts = tuples[0].value.elts
+    res = [tr.arg(elts[i], VEC) for i in positions]
+    result = res[0] if len(res) == 1 else '(' + ', '.join(res) + ')'
     return f'Definition {gname} {coq_params} :=\n  ' + '\n  '.join(lets) + f'\n  {result}.\n'
 
 def generate(repo=None):
@@ -229,15 +306,15 @@ def generate(repo=None):
                       [('P', SCA), ('T', SCA), ('z_norm', VEC), ('z_over_Psats', VEC), ('Psats', VEC), ('x', VEC)],
                       f'{K} (T : Q) (z_norm z_over_Psats Psats : vec) : resid', pre='fun x P =>\n  '))
     zenv = {'z': (VEC, 'z'), 'P': (SCA, 'P'), 'T': (SCA, 'T')}
-    out.append(prep(bt, bp, 'BubblePoint', 'solve_Ty', 'liquid_conversion is None', ['z_norm', 'z_over_P'],
-                    'g_Ty_prep', '(z : vec) (P : Q) : vec * vec', zenv, '(z_over_P, z_norm)'))
-    out.append(prep(bt, bp, 'BubblePoint', 'solve_Py', 'liquid_conversion is None', ['z_norm', 'z_Psat_gamma'],
-                    'g_Py_prep', '(k : pkg) (z : vec) (T : Q) : vec', dict(zenv, Psats=(VEC, '(psats_at k T)')), 'z_Psat_gamma'))
-    out.append(prep(dt, dp, 'DewPoint', 'solve_Tx', 'gas_conversion is None', ['z_norm', 'zP'],
-                    'g_Tx_prep', '(z : vec) (P : Q) : vec * vec', zenv, '(z_norm, zP)'))
-    out.append(prep(dt, dp, 'DewPoint', 'solve_Px', 'gas_conversion is None', ['z_norm', 'z_over_Psats'],
-                    'g_Px_prep', '(k : pkg) (z : vec) (T : Q) : vec * vec', dict(zenv, Psats=(VEC, '(psats_at k T)')),
-                    '(z_norm, z_over_Psats)'))
+    # args = (P, z_over_P, z_norm, y) / (T, z_Psat_gamma, Psats, y) / (P, z_norm, zP, x) / (T, z_norm, z_over_Psats, Psats, x)
+    out.append(prep(bt, bp, 'BubblePoint', 'solve_Ty', 'liquid_conversion is None', 4, (1, 2),
+                    'g_Ty_prep', '(z : vec) (P : Q) : vec * vec', zenv))
+    out.append(prep(bt, bp, 'BubblePoint', 'solve_Py', 'liquid_conversion is None', 4, (1,),
+                    'g_Py_prep', '(k : pkg) (z : vec) (T : Q) : vec', zenv))
+    out.append(prep(dt, dp, 'DewPoint', 'solve_Tx', 'gas_conversion is None', 4, (1, 2),
+                    'g_Tx_prep', '(z : vec) (P : Q) : vec * vec', zenv))
+    out.append(prep(dt, dp, 'DewPoint', 'solve_Px', 'gas_conversion is None', 5, (1, 2),
+                    'g_Px_prep', '(k : pkg) (z : vec) (T : Q) : vec * vec', zenv))
     names = ['BubblePoint._T_error', '_P_error', '_T_error_ideal', '_Py_ideal', 'DewPoint._T_error', '_T_error_ideal', '_P_error',
              'solve_Ty/solve_Py/solve_Tx/solve_Px composition arguments']
     text = ('(* GENERATED by tr/C08_kernels.py from thermosteam/equilibrium/{bubble_point,dew_point}.py -- do not edit.\n'
